@@ -32,7 +32,7 @@ def emit(kind, **kw):
     with _log_lock:
         _counts[kind] = _counts.get(kind, 0) + 1
         _n_events += 1
-        if _n_events > MAX_EVENTS or _log_fh is None:
+        if (_n_events > MAX_EVENTS and kind not in ('census', 'exit', 'master-digest')) or _log_fh is None:
             return
         kw['k'] = kind
         kw['t'] = round(time.monotonic() - T0, 4)
